@@ -493,8 +493,9 @@ fn judge_read(name: &str, n: usize, len: usize, pre: &[u64], r: &Result<Val, uti
 // ---------------------------------------------------------------------------------------------
 // index family
 
-pub const fn idx_values(limit: usize) -> [usize; 8] {
-    [0, 1, 2, 3, limit, limit + 1, limit + 2, usize::MAX]
+pub const fn idx_values(limit: usize) -> [usize; 11] {
+    // small indices, the first invalid ones, usize::MAX, and values that are in range only after truncation to 32 / 8 bits
+    [0, 1, 2, 3, limit, limit + 1, limit + 2, usize::MAX, 1usize << 32, (1usize << 32) + 1, 256]
 }
 
 #[derive(Clone, Debug)]
